@@ -39,7 +39,7 @@ def recheck_hangs(cases, obs):
     CASE_TIMEOUT = '25s'
     os.environ['VERIF_POST_TIMEOUT'] = '20s'
     try:
-        for i in idx[:12]:
+        for i in idx[:400]:
             o2 = run_cases([cases[i]])[0]
             o2['rechecked'] = True
             obs[i] = o2
@@ -432,8 +432,8 @@ def run(res, rng, tier):
                 'non-trivial = the decoder got past its first check (value returned, or an error other than magic/field-count/EOF); distinct by (decoder, input)')
     pick = [i for i, o in enumerate(obs) if o.get('cls') == 'ok'][:2] + [i for i, o in enumerate(obs) if o.get('cls') == 'err'][:2] + [len(obs) - 1]
     res.samples = [dict(case=cases[i], observed=slim(obs[i])) for i in pick]
-    res.notes.append('no theorem for: value safety of '
-                     'ParseAux results, UnmarshalSAM as a whole, fai.NewIndex and the BGZF reader have no theorem: correspondence and/or fuzz only')
+    res.notes.append('no theorem for: index Chunks beyond the query handling (sort.Search, merge strategies), index writers, '
+                     'the BGZF block machinery beyond readMember (cache, read-ahead, inflate) and the library decoders: correspondence and/or fuzz only')
     res.notes.append('the fuzz part is a test: %d decoder runs, %d of them not judged (memory guard)' % (res.evaluations, memguard))
     res.trusted = TRUSTED
     res.assumptions = ASSUME
